@@ -21,6 +21,8 @@ def text_values(tier, allow_semicolon=True):
     chars = [c for c in META if allow_semicolon or c != ";"]
     for c in chars:
         vals += [c, c + c, c + "lead", "trail" + c, "in" + c + "fix"]
+    # text that Unicode normalisation would change: decomposed e-acute, OHM SIGN / ANGSTROM SIGN (singletons), a Hangul jamo sequence
+    vals += ["e\u0301", "Cafe\u0301 de\u0301ja\u0300", "\u2126 \u212b", "\u1112\u1161\u11ab"]
     vals += ["%(x)s", "100%", "50%% off", "${x}", "[section]", "key = value", "a: b", "# not a comment", "x ; y" if allow_semicolon else "x y", "été 日本"]
     if tier == "thorough":
         for c in chars:
